@@ -29,7 +29,7 @@ Closed(st, id) ==
   IF id = 0 THEN 1
   ELSE LET s == st.subs[id] IN
   CASE s.k = "slot" -> IF st.nodes[s.a].h # 0 THEN 2 ELSE IF st.nodes[s.a].f THEN 0 ELSE 1
-    [] s.k = "zip" -> Closed(st, s.b)
+    [] s.k = "zip" -> LET ca == Closed(st, s.a) IN IF ca # 1 THEN ca ELSE Closed(st, s.b)   \* a.is_closed() && b.is_closed()
     [] s.k = "multi" ->
          IF st.nodes[s.a].h # 0 THEN 2
          ELSE IF ~st.nodes[s.a].f THEN 1 ELSE AllClosed(st, st.nodes[s.a].q)
@@ -77,14 +77,15 @@ SubsStep(st, fr) ==
          IF st.nodes[fr.n].f
          THEN Push([st EXCEPT !.nodes[fr.n].f = FALSE], <<Bump(st.nodes[fr.n].b)>>) ELSE st
     [] fr.f = "rccheck" ->      \* ret = subject.is_empty()
-         IF st.ret = B(TRUE) THEN Push(st, <<F1("sunsub", fr.n)>>) ELSE st
+         IF st.ret = B(TRUE) THEN Push([st EXCEPT !.ret = U], <<F1("sunsub", fr.n)>>) ELSE [st EXCEPT !.ret = U]
     [] fr.f = "optunsub" ->
          LET nd == st.nodes[fr.n] IN
          IF nd.f THEN Push([st EXCEPT !.nodes[fr.n].f = FALSE], <<Unsub(nd.n)>>) ELSE st
     [] fr.f = "mappend" ->      \* MultiSubscription::append(child = x) on cell n
-         Push(st, <<Acq(fr.n), F2("mappend2", fr.n, fr.x), Rel(fr.n)>>)
-    [] fr.f = "mappend2" ->
-         IF st.nodes[fr.n].f THEN [st EXCEPT !.nodes[fr.n].q = Append(@, fr.x)] ELSE st
+         Push(st, <<Acq(fr.n), F2("mappend2", fr.n, fr.x)>>)
+    [] fr.f = "mappend2" ->     \* holding the cell: push, or (already unsubscribed) release and tear the late addition down
+         IF st.nodes[fr.n].f THEN Push([st EXCEPT !.nodes[fr.n].q = Append(@, fr.x)], <<Rel(fr.n)>>)
+         ELSE Push(st, <<Rel(fr.n), Unsub(fr.x)>>)
     [] fr.f = "mappendv" ->     \* append the subscription on top of the value stack to cell n
          Push(PopV(st), <<F2("mappend", fr.n, TopV(st))>>)
     [] fr.f = "mkzip" ->        \* ZipSubscription::new(a, b): b is on top
